@@ -274,9 +274,28 @@ def respell(rng, s):
     return rcase(rng, t)
 
 
+BOUND_NUMS = ['0', '1', '9', '10', '99', '100', '999', '1000', '9999999', '10000000', '99999999', '100000000', '999999999', '1000000000',
+              '99999999999999999999', '100000000000000000000', '09', '010', '000100000000']
+BOUND_TEMPLATES = ['%s', '1.%s', '%s!1.0', '1.0a%s', '1.0.post%s', '1.0.dev%s', '1.0+%s', '1.0+x.%s', '1.0+%s.x', '1.0rc1.post2.dev%s', '2.%s.0', '1.0-%s',
+                   '1.0+%s.%s', 'v1.0+ab%s']
+
+
+def gen_boundary_pair(rng):
+    """two versions that differ in ONE numeric field, with values on either side of a digit-count boundary (9|10 ... 99999999|100000000 ...):
+    every numeric field of PEP 440 is compared as a number, whatever its width"""
+    t = rng.choice(BOUND_TEMPLATES)
+    k = t.count('%s')
+    i = rng.randrange(len(BOUND_NUMS))
+    j = min(len(BOUND_NUMS) - 1, max(0, i + rng.choice([-2, -1, 1, 1, 2])))
+    fill = [rng.choice(BOUND_NUMS) for _ in range(k - 1)]
+    return t % tuple(fill + [BOUND_NUMS[i]]), t % tuple(fill + [BOUND_NUMS[j]])
+
+
 def gen_pair(rng, pool):
     r = rng.random()
     a = rng.choice(pool)
+    if r < 0.1:
+        return gen_boundary_pair(rng)
     if r < 0.5:
         return a, rng.choice(pool)
     if r < 0.65:
